@@ -30,7 +30,7 @@ def main():
         if not all(os.path.exists(os.path.join(src, f)) for f in ("patch.diff", "diff_check.py")):
             print(f"[{n}] missing files")
             continue
-        rid = f"{prop}-r{n}"
+        rid = f"{prop}-{os.environ.get('REFACTOR_ROUND', 'r')}{n}"
         # the agent's own worktree is a clean checkout of /repo HEAD (its scripts assert that path): verify there
         rc, out = run("git status --porcelain -- pycomm3", wt)
         if out.strip():
